@@ -108,8 +108,8 @@ fn one_target<T: Elem>(ctx: &mut Ctx, t: Target<T>, partner: Routine<T>) {
     let op = t.r.op;
     let int_div = !T::FLOAT && op.is_div();
     let two = kind_uses_b(t.r.kind());
-    let nightly_float_red = cfg!(feature = "nightly") && T::FLOAT && (op.is_sum_like() || op == Op::Cosine);
-    let reps = if dims == 0 { 1 } else { tier.pick(24, 400) };
+    let nightly_float_red = cfg!(feature = "nightly") && T::FLOAT && (op.is_sum_like() || op == Op::Cosine || op.is_div());
+    let reps = if dims == 0 { 1 } else { tier.pick(100, 6000) };
     for rep in 0..reps {
         if rep % 32 == 0 && run.ctx.out_of_time() {
             break;
@@ -150,7 +150,8 @@ fn one_target<T: Elem>(ctx: &mut Ctx, t: Target<T>, partner: Routine<T>) {
             }
             run.tally.add("class:zero_divisor", 1);
         }
-        let c: VecCall<T> = t.call().with_data(v, a, b);
+        let mut c: VecCall<T> = t.call().with_data(v, a, b);
+        c.weight = 2;
         run.tally.note_len(dims);
         let ar = &mut run.ar;
         run.ctx.run_case(&c, dims > 0, &mut |c| check(c, &partner, ar));
